@@ -21,7 +21,8 @@ from specmc.sandbox import Sandbox
 
 ID = "C11"
 LEVEL = "model_checking"
-RULE = ("programs = the C01 core matrix (kind x position x required x nullable x literal_enums), the C03 body matrix, the C04 response "
+RULE = ("[+ one component used at several places that differ in requiredness / nullability (model properties, query parameters, response, allOf-inherited and promoted), both orders] " +
+        "programs = the C01 core matrix (kind x position x required x nullable x literal_enums), the C03 body matrix, the C04 response "
         "tables, and name-shape documents (a property named like its class's module), every reference graph of 2 schemas with <=2 edges (thorough: <=4, and 3 schemas <=2), one model as body under every ordered selection of 2-3 media types (separate operations / one operation); each program is (1) type-checked by mypy under "
         "the repository's own [tool.mypy] settings, in batches; (2) executed: every attribute of every object decoded from RM-inst "
         "instances and every parsed response must conform to its annotation (structural conformance checker); (3) every value of a "
@@ -88,6 +89,31 @@ def programs(tier):
     for name, comps in shapes.items():
         for lit in (False, True):
             out.append((f"s:{name}{'|lit' if lit else ''}", f"shape/{name}" + ("/lit" if lit else ""), gen.base_doc(comps), {"literal_enums": lit}, {"kind": "shape"}))
+    # ONE component schema reaching several places that differ in requiredness / nullability (every use is a copy of one parsed
+    # property object): required + optional + nullable properties of a model, required + optional query parameters and a response of
+    # one operation, an optional property inherited through allOf and listed as required by the child; both declaration orders
+    multi = {"enum_str": {"type": "string", "enum": ["a", "b"]}, "enum_int": {"type": "integer", "enum": [1, 2]},
+             "model": {"type": "object", "properties": {"z": {"type": "integer"}}}, "array_str": {"type": "array", "items": {"type": "string"}},
+             "array_date": {"type": "array", "items": {"type": "string", "format": "date"}}, "array_model": {"type": "array", "items": ref("Elem")},
+             "array_enum": {"type": "array", "items": {"type": "string", "enum": ["x", "y"]}}, "array_array": {"type": "array", "items": {"type": "array", "items": {"type": "integer"}}},
+             "union": {"oneOf": [{"type": "integer"}, {"type": "string", "format": "date"}]}, "date": {"type": "string", "format": "date"}}
+    for kname_, comp in multi.items():
+        for first in ("required-first", "optional-first"):
+            uses = [("r", True), ("o", False)] if first == "required-first" else [("o", False), ("r", True)]
+            props = {n: ref("Comp") for n, _ in uses}
+            props["n"] = {"oneOf": [ref("Comp"), {"type": "null"}]}
+            comps = {"Elem": {"type": "object", "properties": {"e": {"type": "string"}}}, "Comp": comp,
+                     "Holder": {"type": "object", "required": ["r"], "properties": props},
+                     "Parent": {"type": "object", "properties": {"inherited": ref("Comp"), "plain": {"type": "string"}}},
+                     "Child": {"allOf": [ref("Parent"), {"type": "object", "required": ["inherited"], "properties": {"own": {"type": "integer"}}}]},
+                     "Sibling": {"allOf": [ref("Parent"), {"type": "object", "properties": {"mine": {"type": "integer"}}}]}}
+            params = [] if kname_ in ("model", "array_model", "array_array", "union") else \
+                [{"name": "q" + n, "in": "query", "required": req, "schema": ref("Comp")} for n, req in uses]
+            paths = {"/u": {"get": {"operationId": "useComp", "parameters": params,
+                                    "responses": {"200": {"description": "d", "content": {"application/json": {"schema": ref("Comp")}}}}}}}
+            for lit in ((False, True) if kname_.startswith(("enum", "array_enum")) else (False,)):
+                out.append((f"s:multi-use:{kname_}:{first}{'|lit' if lit else ''}", f"shape/multi-use/{kname_}" + ("/lit" if lit else ""),
+                            gen.base_doc(comps, paths=paths), {"literal_enums": lit}, {"kind": "matrix"}))
     # response unions over several statuses
     out.append(("s:resp-union", "shape/resp-union", gen.base_doc(
         {"A": {"type": "object", "properties": {"a": {"type": "string"}}}, "B": {"type": "object", "properties": {"b": {"type": "integer"}}}},
